@@ -430,9 +430,11 @@ Definition check_conc (maxAge : Z) (calls : list call) (final : list cellrec) : 
 
 (* ---- lock discipline (source scan) -------------------------------------------------------- *)
 Definition check_lock (facts : list lockfact) : issues :=
+  (* structural facts the linearizability theorem relies on: their absence breaks the tie between model and code (a
+     correspondence failure); a concrete wrong answer is for the concurrent drivers to exhibit *)
   flat_map (fun f =>
-    spec_if (lf_guarded f) (String.append "map field accessed without Lock(); defer Unlock() in " (lf_name f))
-    ++ spec_if (negb (lf_escapes f)) (String.append "guarded map or *ExchangeToPrice escapes from " (lf_name f))) facts
+    diff_if (lf_guarded f) (String.append "map field accessed without Lock(); defer Unlock() in " (lf_name f))
+    ++ diff_if (negb (lf_escapes f)) (String.append "guarded map or *ExchangeToPrice escapes from " (lf_name f))) facts
   ++ diff_if (existsb (fun f => String.eqb (lf_name f) "UpdatePrices") facts
               && existsb (fun f => String.eqb (lf_name f) "GetValidMedianPrices") facts)
              "lock scan did not find UpdatePrices and GetValidMedianPrices".
